@@ -10,7 +10,8 @@ REPO="${ROTO_REPO:-/repo}"
 sed "s#@ROTO_REPO@#$REPO#" harness/Cargo.toml.in > harness/Cargo.toml
 [ -f harness/Cargo.lock ] || cp "$REPO/Cargo.lock" harness/Cargo.lock
 (cd harness && cargo build --offline --quiet --bins)
-(cd lean && lake build RotoV Driver rotov-driver) || true
+rm -rf lean/RotoV/Audit   # axiom-audit files are rewritten by every check run
+(cd lean && lake build RotoV Driver) || true
 # one driver per property (a check builds only its own)
 (cd lean && for i in 01 02 03 04 05 06 07 08 09 10 11 12 13 14 15 16 17 18 19 20; do lake build rotov-driver-c$i >/dev/null 2>&1 || true; done)
 echo setup done
